@@ -162,7 +162,7 @@ def run(rep: Report, ctx: Any) -> str:
                 if isinstance(node, (ast.For, ast.AsyncFor)) and _insensitive_body(node.body):
                     rep.ok("R12.1", key, "set", "loop body performs only keyed / idempotent updates")
                     continue
-                if isinstance(node, (ast.For, ast.AsyncFor)) and order.benign(f, node.body, True, frozenset()):
+                if isinstance(node, (ast.For, ast.AsyncFor)) and order.query(f, node.body):
                     rep.ok("R12.1", key, "effects", "everything the loop body does (followed into the functions it calls) is a keyed idempotent "
                            "update, text put into an error object, or a yield" +
                            (" - the generator's callers are judged as traversals of an unordered iterable" if f.qual in unordered else ""))
@@ -178,7 +178,7 @@ def run(rep: Report, ctx: Any) -> str:
                     rep.ok("R12.1", key, "set", "formatted into an error detail only")
                     continue
                 if isinstance(node, ast.expr) and _only_into_diagnostics(f, node, parent, it) and \
-                        all(order.call_ok(f, c, stmt_of(f.node, c), frozenset()) for c in ast.walk(node) if isinstance(c, ast.Call)):
+                        order.query_calls(f, [c for c in ast.walk(node) if isinstance(c, ast.Call)]):
                     rep.ok("R12.1", key, "diagnostics", "what is made of the traversal is text that ends in an error object and nowhere else; "
                            "what the traversal does on the way is keyed and idempotent")
                     continue
@@ -890,7 +890,9 @@ class _OrderEffects:
     def __init__(self, ix: Any, it: Any) -> None:
         self.ix, self.it = ix, it
         self.cfgs: dict[str, Any] = {}
-        self.memo: dict[tuple[str, frozenset[str]], bool] = {}
+        self.bad: set[str] = set()      # functions that let the order through (under whatever assumption about the callers)
+        self.good: set[str] = set()     # functions found harmless by a query that succeeded as a whole
+        self.trial: set[str] = set()    # ... by the query that is running (harmless if the functions on its stack are)
 
     def callees(self, g: Any, c: ast.Call) -> list[Any]:
         out: list[Any] = []
@@ -956,7 +958,7 @@ class _OrderEffects:
     def call_ok(self, g: Any, c: ast.Call, st: ast.stmt | None, stack: frozenset[str]) -> bool:
         hs = self.callees(g, c)
         if hs:
-            return all(h.qual in stack or self.benign(h, h.node.body, False, stack | {h.qual}) for h in hs)
+            return all(self.callee_ok(h, stack) for h in hs)
         r = self.ix.resolve(g.module, call_name(c)) if isinstance(c.func, (ast.Name, ast.Attribute)) else None
         if r is not None and r[0] == "class":
             return True  # constructing an object
@@ -971,6 +973,33 @@ class _OrderEffects:
             if a == "pop" and len(c.args) == 1 and st is not None:
                 return self.guarded(g, st, c.args[0], c.func.value)
         return False
+
+    def callee_ok(self, h: Any, stack: frozenset[str]) -> bool:
+        if h.qual in stack or h.qual in self.good or h.qual in self.trial:
+            return True
+        if h.qual in self.bad:
+            return False
+        ok = self.benign(h, h.node.body, False, stack | {h.qual})
+        (self.trial if ok else self.bad).add(h.qual)
+        return ok
+
+    def query(self, g: Any, stmts: list[ast.stmt]) -> bool:
+        """the statements, executed once per element by g itself"""
+        self.trial = set()
+        ok = self.benign(g, stmts, True, frozenset())
+        if ok:
+            self.good |= self.trial
+        self.trial = set()
+        return ok
+
+    def query_calls(self, g: Any, calls: list[ast.Call]) -> bool:
+        """the calls made while g traverses an unordered iterable inside an expression"""
+        self.trial = set()
+        ok = all(self.call_ok(g, c, stmt_of(g.node, c), frozenset()) for c in calls)
+        if ok:
+            self.good |= self.trial
+        self.trial = set()
+        return ok
 
     def benign(self, g: Any, stmts: list[ast.stmt], owner: bool, stack: frozenset[str]) -> bool:
         from ..cfg import walk_own
